@@ -8,9 +8,9 @@ Follows
   templates …/%service/_mixins.py.j2, _async_mixins.py.j2, client.py.j2 / async_client.py.j2 (`opts.add_iam_methods`
                              blocks), transports/_mixins.py.j2, transports/_rest_mixins_base.py.j2,
                              _shared_macros.j2 (generate_mixin_call_method, prep_wrapped_messages_async_method)
-The model follows the code, not the intent: see `iamOverrides` (drops ALL IAM mixins), `grpcTable`
-(WaitOperation has no response deserializer), `legacyAsyncLookupOk`, `restCall` (body presence is decided
-by the FIRST binding).
+The model follows the code, not the intent: see `iamOverrides` (drops ALL IAM mixins),
+`legacyAsyncLookupOk`, `restCall` (body presence is decided by the FIRST binding).  Since the `fix:` commit
+feb77eb the WaitOperation stub deserialises its reply like GetOperation (`grpcTable`).
 -/
 namespace GapicModel.Model.Mixins
 
@@ -179,7 +179,8 @@ def exposedMixins (y : Yaml) (api : Api) (o : Opts) (_k : ClientKind) : List Str
 inductive Resp where
   | message (t : String)     -- `response_deserializer=<T>.FromString`
   | none                     -- `response_deserializer=None`, method declared `-> None`
-  | rawBytes                 -- `response_deserializer=None` although the method is declared to return a message
+  | rawBytes                 -- `response_deserializer=None` on a method that returns a message (no stub does this since feb77eb;
+                             -- kept so that the harness can name the behaviour if it comes back)
 deriving DecidableEq, Repr
 
 structure GrpcSpec where
@@ -193,7 +194,7 @@ deriving DecidableEq, Repr
 def grpcTable : List (String × GrpcSpec) := [
   ("DeleteOperation", ⟨"/google.longrunning.Operations/DeleteOperation", "google.longrunning.DeleteOperationRequest", .none, "name"⟩),
   ("CancelOperation", ⟨"/google.longrunning.Operations/CancelOperation", "google.longrunning.CancelOperationRequest", .none, "name"⟩),
-  ("WaitOperation", ⟨"/google.longrunning.Operations/WaitOperation", "google.longrunning.WaitOperationRequest", .rawBytes, "name"⟩),
+  ("WaitOperation", ⟨"/google.longrunning.Operations/WaitOperation", "google.longrunning.WaitOperationRequest", .message "google.longrunning.Operation", "name"⟩),
   ("GetOperation", ⟨"/google.longrunning.Operations/GetOperation", "google.longrunning.GetOperationRequest", .message "google.longrunning.Operation", "name"⟩),
   ("ListOperations", ⟨"/google.longrunning.Operations/ListOperations", "google.longrunning.ListOperationsRequest", .message "google.longrunning.ListOperationsResponse", "name"⟩),
   ("ListLocations", ⟨"/google.cloud.location.Locations/ListLocations", "google.cloud.location.ListLocationsRequest", .message "google.cloud.location.ListLocationsResponse", "name"⟩),
